@@ -23,7 +23,7 @@ theorem C17_apply_row_perm (v : VW) (buf : List α) (h : v.Inv buf.length)
     (swapRows : List α → Nat → Nat → Res (List α)) (hsw : SwapRowsSpec v buf.length swapRows)
     (p : List Nat) (hp : p.Perm (List.range v.numRows)) :
     applyRowPerm swapRows buf p = .ok (gather buf (v.mapCells (sortRowsG p))) := by
-  sorry
+  exact applyRowPerm_spec v buf h swapRows hsw p hp
 
 /-- `sort_by_col` (and `sort_by_col_key`, `sort_col_ord`).  `col` is the implementor's `col()` (C09). -/
 theorem C17_sort_by_col (v : VW) (buf : List α) (h : v.Inv buf.length) (a : Acc) (ha : a.Of v buf.length)
@@ -37,7 +37,18 @@ theorem C17_sort_by_col (v : VW) (buf : List α) (h : v.Inv buf.length) (a : Acc
         .ok (gather buf (v.mapCells (sortRowsG (stablePerm le
           ((List.range v.numRows).filterMap fun r => buf[v.pos c r]?)))))) ∧
     (¬ c < v.numCols → a.sortByCol col swapRows buf le c = .error .panic) := by
-  sorry
+  constructor
+  · intro hc
+    obtain ⟨it, e, hwf, habs⟩ := hcol c hc
+    have hk : (it.abs v.numRows).filterMap (fun p => buf[p]?)
+        = (List.range v.numRows).filterMap fun r => buf[v.pos c r]? := by
+      rw [habs, List.filterMap_map]; rfl
+    have hp := stablePerm_perm le ((List.range v.numRows).filterMap fun r => buf[v.pos c r]?)
+    rw [col_keys_length v buf h hc] at hp
+    simp only [Acc.sortByCol, ha.cols, hc, not_true_eq_false, if_false, ok_bind, e, sort_collect_col hwf, hk]
+    exact C17_apply_row_perm v buf h swapRows hsw _ hp
+  · intro hc
+    simp only [Acc.sortByCol, ha.cols, hc, not_false_eq_true, if_true, throw_eq, err_bind]
 
 /-- `sort_unstable_by_col` (and its key variant): for every permutation the side sort may return -/
 theorem C17_sort_unstable_by_col (v : VW) (buf : List α) (h : v.Inv buf.length) (a : Acc) (ha : a.Of v buf.length)
@@ -48,12 +59,27 @@ theorem C17_sort_unstable_by_col (v : VW) (buf : List α) (h : v.Inv buf.length)
     (p : List Nat) (hp : p.Perm (List.range v.numRows)) (c : Nat) :
     (c < v.numCols → a.sortUnstableByCol col swapRows buf p c = .ok (gather buf (v.mapCells (sortRowsG p)))) ∧
     (¬ c < v.numCols → a.sortUnstableByCol col swapRows buf p c = .error .panic) := by
-  sorry
+  constructor
+  · intro hc
+    obtain ⟨it, e, _, _⟩ := hcol c hc
+    simp only [Acc.sortUnstableByCol, ha.cols, hc, not_true_eq_false, if_false, ok_bind, e]
+    exact C17_apply_row_perm v buf h swapRows hsw p hp
+  · intro hc
+    simp only [Acc.sortUnstableByCol, ha.cols, hc, not_false_eq_true, if_true, throw_eq, err_bind]
 
 /-- a row permutation is a bijection of the cells: every row of the result is one original row, each once -/
 theorem C17_rows_bijective (C R : Nat) (p : List Nat) (hp : p.Perm (List.range R)) :
     (∀ c r, c < C → r < R → (sortRowsG p (c, r)).2 < R ∧ (sortRowsG p (c, r)).1 = c) ∧
     (∀ c r r', r < R → r' < R → (sortRowsG p (c, r)).2 = (sortRowsG p (c, r')).2 → r = r') := by
-  sorry
+  have hlen : p.length = R := by rw [hp.length_eq, List.length_range]
+  have hget : ∀ r, r < R → p.getD r r = p.getD r 0 := fun r hr => getD_irrel p (by omega) r 0
+  have hfacts := perm_range_facts p (by rw [hlen]; exact hp)
+  refine ⟨fun c r _ hr => ⟨?_, rfl⟩, fun c r r' hr hr' he => ?_⟩
+  · show p.getD r r < R
+    rw [hget r hr]
+    have := hfacts.1 r (by omega); omega
+  · have he' : p.getD r r = p.getD r' r' := he
+    rw [hget r hr, hget r' hr'] at he'
+    exact hfacts.2.1 r r' (by omega) (by omega) he'
 
 end Toodee
